@@ -1,6 +1,7 @@
 package scanner
 
 import (
+	"github.com/z7zmey/php-parser/pkg/conf"
 	"github.com/z7zmey/php-parser/pkg/position"
 	"github.com/z7zmey/php-parser/pkg/token"
 )
@@ -8,3 +9,45 @@ import (
 // Verification hooks (overlay only, never part of /repo).
 
 func (lex *Lexer) ZZPools() (*token.Pool, *position.Pool) { return lex.tokenPool, lex.positionPool }
+
+// ZZNewLines builds a NewLines table holding exactly the given line starts.
+func ZZNewLines(data []int) *NewLines { return &NewLines{data: data} }
+
+// ZZData exposes the recorded line starts.
+func (nl *NewLines) ZZData() []int { return nl.data }
+
+// ZZEntryStates lists the entry states of the scanner's sub-machines: the only values lex.cs
+// and the entries of lex.stack take between two calls of Lex.
+var ZZEntryStates = []int{
+	lexer_en_main, lexer_en_html, lexer_en_php, lexer_en_property, lexer_en_nowdoc, lexer_en_heredoc,
+	lexer_en_backqote, lexer_en_template_string, lexer_en_heredoc_end, lexer_en_string_var,
+	lexer_en_string_var_index, lexer_en_string_var_name, lexer_en_halt_compiller_open_parenthesis,
+	lexer_en_halt_compiller_close_parenthesis, lexer_en_halt_compiller_close_semicolon, lexer_en_halt_compiller_end,
+}
+
+var ZZEntryNames = []string{
+	"main", "html", "php", "property", "nowdoc", "heredoc", "backqote", "template_string", "heredoc_end", "string_var",
+	"string_var_index", "string_var_name", "halt_compiller_open_parenthesis", "halt_compiller_close_parenthesis",
+	"halt_compiller_close_semicolon", "halt_compiller_end",
+}
+
+// ZZLexerAt puts a fresh lexer over data into the between-tokens state (cs, p, stack[:top],
+// heredoc label); everything else is as NewLexer leaves it.
+func ZZLexerAt(data []byte, cfg conf.Config, cs, p int, stack []int, label []byte) *Lexer {
+	lex := NewLexer(data, cfg)
+	lex.cs = cs
+	lex.p = p
+	lex.stack = append(lex.stack, stack...)
+	lex.top = len(stack)
+	lex.heredocLabel = label
+	return lex
+}
+
+// ZZState returns the between-tokens state.
+func (lex *Lexer) ZZState() (cs, p, pe, top int, stack []int, label []byte) {
+	return lex.cs, lex.p, lex.pe, lex.top, lex.stack, lex.heredocLabel
+}
+
+// ZZIsHeredocEnd is the lexer's own closing-label test at offset p (for PHP >= 7.3 a positive
+// answer also moves the cursor past the indentation, exactly as during scanning).
+func (lex *Lexer) ZZIsHeredocEnd(p int) bool { return lex.isHeredocEnd(p) }
